@@ -378,7 +378,9 @@ class OrderedRingBuffer(Generic[FloatArray]):
         )
 
         if fill_value is not None:
-            window = self._fill_gaps(window, fill_value, start, self.gaps)
+            window = self._fill_gaps(
+                window, fill_value, self.normalize_timestamp(start), self.gaps
+            )
         return window
 
     def _fill_gaps(
